@@ -1,7 +1,9 @@
 package kit
 
 import (
+	"bytes"
 	"crypto/ecdsa"
+	"sort"
 	"sync"
 	"time"
 
@@ -31,8 +33,9 @@ type SigRecord struct {
 
 // Registry is the global signature registry of one run.
 type Registry struct {
-	mu   sync.Mutex
-	Recs []*SigRecord
+	mu    sync.Mutex
+	Recs  []*SigRecord
+	canon int // records before this index are in their final, canonical position
 	// OnSign, if set, is called (outside the lock) for every new record of a correct node.
 	OnSign func(r *SigRecord)
 }
@@ -48,9 +51,40 @@ func (g *Registry) add(r *SigRecord) {
 	}
 }
 
+// All returns the records in a canonical order. Nodes sign concurrently (several validators
+// time out at one simulated instant), so the order of arrival between two quiescent points is
+// the Go scheduler's choice, not the simulator's: the batch that arrived since the previous
+// call is sorted by content before anybody looks at it. Records returned by an earlier call
+// keep their positions. Call it at quiescent points only.
 func (g *Registry) All() []*SigRecord {
 	g.mu.Lock()
 	defer g.mu.Unlock()
+	if g.canon < len(g.Recs) {
+		batch := g.Recs[g.canon:]
+		sort.SliceStable(batch, func(i, j int) bool {
+			a, b := batch[i], batch[j]
+			if a.Height != b.Height {
+				return a.Height < b.Height
+			}
+			if a.Round != b.Round {
+				return a.Round < b.Round
+			}
+			if a.Kind != b.Kind {
+				return kindRank(a.Kind) < kindRank(b.Kind) // protocol order: proposal, prevote, precommit
+			}
+			if c := bytes.Compare(a.Signer[:], b.Signer[:]); c != 0 {
+				return c < 0
+			}
+			if c := bytes.Compare(a.BlockHash[:], b.BlockHash[:]); c != 0 {
+				return c < 0
+			}
+			return bytes.Compare(a.Sig, b.Sig) < 0
+		})
+		for i, r := range batch {
+			r.Seq = g.canon + i
+		}
+		g.canon = len(g.Recs)
+	}
 	return append([]*SigRecord(nil), g.Recs...)
 }
 
@@ -66,6 +100,16 @@ type RecSigner struct {
 
 func NewRecSigner(k *ecdsa.PrivateKey, reg *Registry) *RecSigner {
 	return &RecSigner{DefaultPrivValidator: types.NewDefaultPrivValidator(k), Reg: reg}
+}
+
+func kindRank(k string) int {
+	switch k {
+	case "proposal":
+		return 0
+	case "prevote":
+		return 1
+	}
+	return 2
 }
 
 func kindOf(t kproto.SignedMsgType) string {
